@@ -77,6 +77,13 @@ pub fn cursor(x: &Sx) -> Cursor {
     }
 }
 
+/// set while a store configured with strip_temp_ids(false) is exercised (C03): references of kind 2
+/// go by handle, because temporary ids do not resolve there
+pub static NO_TEMP_REFS: std::sync::atomic::AtomicBool = std::sync::atomic::AtomicBool::new(false);
+fn temp_refs_on() -> bool {
+    !NO_TEMP_REFS.load(std::sync::atomic::Ordering::Relaxed)
+}
+
 /// C10 only (set by its Ctx::new): the float codes 999 and -999 stand for the doubles directly
 /// below 1.0 and above -1.0 (1.1e-16 away: distinct floats that an epsilon comparison would take
 /// for 1.0 / -1.0; the model orders them between 0.5 and 1.0 like 0.999)
@@ -152,7 +159,7 @@ fn set_item<'a>(x: &Sx) -> BuildItem<'a, AnnotationDataSet> {
 /// reference kind 2 = by temporary id ("!S3") when the item is alive, else as kind 1 (by handle): a
 /// temporary id of a dead slot is just an unknown id, which the model does not distinguish
 fn temp_set<'a>(store: &AnnotationStore, x: &Sx) -> BuildItem<'a, AnnotationDataSet> {
-    if x.nth(0).int() == 2 && store.dataset(AnnotationDataSetHandle::new(x.nth(1).int() as usize)).is_some() {
+    if x.nth(0).int() == 2 && temp_refs_on() && store.dataset(AnnotationDataSetHandle::new(x.nth(1).int() as usize)).is_some() {
         BuildItem::Id(format!("!S{}", x.nth(1).int()))
     } else {
         set_item(x)
@@ -254,7 +261,7 @@ pub fn apply(store: &mut AnnotationStore, op: &Sx) -> Sx {
                 guard(|| store.remove_annotation(id.as_str()))
             } else {
                 let h = AnnotationHandle::new(rf.nth(1).int() as usize);
-                if rf.nth(0).int() == 2 && store.annotation(h).is_some() {
+                if rf.nth(0).int() == 2 && temp_refs_on() && store.annotation(h).is_some() {
                     // by temporary id (a live item only: for a dead one it is an unknown id, see temp_ref)
                     let id = format!("!A{}", h.as_usize());
                     guard(|| store.remove_annotation(id.as_str()))
@@ -278,7 +285,7 @@ pub fn apply(store: &mut AnnotationStore, op: &Sx) -> Sx {
             let r = if op.nth(0).int() == 5 {
                 let x = op.nth(2);
                 let d = match (x, setlive(store)) {
-                    (Sx::L(_), Some(sh)) if x.nth(0).int() == 2 && store.dataset(sh).map(|s| s.annotationdata(AnnotationDataHandle::new(x.nth(1).int() as usize)).is_some()).unwrap_or(false) => {
+                    (Sx::L(_), Some(sh)) if x.nth(0).int() == 2 && temp_refs_on() && store.dataset(sh).map(|s| s.annotationdata(AnnotationDataHandle::new(x.nth(1).int() as usize)).is_some()).unwrap_or(false) => {
                         BuildItem::Id(format!("!D{}", x.nth(1).int()))
                     }
                     _ => data_item(x),
@@ -287,7 +294,7 @@ pub fn apply(store: &mut AnnotationStore, op: &Sx) -> Sx {
             } else {
                 let x = op.nth(2);
                 let k = match (x, setlive(store)) {
-                    (Sx::L(_), Some(sh)) if x.nth(0).int() == 2 && store.dataset(sh).map(|s| s.key(DataKeyHandle::new(x.nth(1).int() as usize)).is_some()).unwrap_or(false) => {
+                    (Sx::L(_), Some(sh)) if x.nth(0).int() == 2 && temp_refs_on() && store.dataset(sh).map(|s| s.key(DataKeyHandle::new(x.nth(1).int() as usize)).is_some()).unwrap_or(false) => {
                         BuildItem::Id(format!("!K{}", x.nth(1).int()))
                     }
                     _ => key_item(x),
@@ -309,7 +316,7 @@ pub fn apply(store: &mut AnnotationStore, op: &Sx) -> Sx {
         }
         7 => {
             let x = op.nth(1);
-            let it = if x.nth(0).int() == 2 && store.resource(TextResourceHandle::new(x.nth(1).int() as usize)).is_some() {
+            let it = if x.nth(0).int() == 2 && temp_refs_on() && store.resource(TextResourceHandle::new(x.nth(1).int() as usize)).is_some() {
                 BuildItem::Id(format!("!R{}", x.nth(1).int()))
             } else {
                 res_item(x)
